@@ -60,7 +60,44 @@ struct World<'a> {
     step_count: usize,
 }
 
+/// Metamorphic check for "never an arbitrary pick": the same plan is executed again on another thread
+/// under a different entropy (= another std HashMap iteration order inside the code under test); every
+/// caller must receive the same outcome.
 pub fn execute(plan: &Plan, entropy: u64) -> RunReport {
+    let (mut rep, version_bytes) = execute_once(plan, entropy, None);
+    let wants_salt = plan.kind >= 3 || entropy % 3 == 0;
+    if wants_salt && rep.violations.is_empty() && rep.harness_error.is_none() {
+        let alt_entropy = entropy ^ 0x5a17_5a17_5a17_5a17;
+        let p2 = plan.clone();
+        // the second execution sees byte-identical records (scratchpad encryption is randomised)
+        let alt = match simkit::rt::on_fresh_thread(alt_entropy, move || execute_once(&p2, alt_entropy, Some(version_bytes)).0) {
+            simkit::rt::ThreadOutcome::Done(r) => r,
+            simkit::rt::ThreadOutcome::Panicked(m) => {
+                rep.log(format!("second hash order: PANIC {m}"));
+                rep.violate("C05", "panic_under_other_hash_order", &[], m);
+                return rep;
+            }
+        };
+        rep.probe("second_hash_order_executed");
+        let outcomes = |r: &RunReport| -> Vec<String> { r.log.iter().filter(|l| l.starts_with("caller ")).cloned().collect() };
+        let (a, b) = (outcomes(&rep), outcomes(&alt));
+        if a != b {
+            let shape = match plan.kind {
+                4 => "versions_of_mixed_kinds",
+                3 => "scratchpad_versions",
+                1 => "register_versions",
+                2 => "transaction_versions",
+                _ => "opaque_versions",
+            };
+            let diff = a.iter().zip(b.iter()).find(|(x, y)| x != y).map(|(x, y)| format!("{x:?} vs {y:?}")).unwrap_or_else(|| format!("{} vs {} outcomes", a.len(), b.len()));
+            rep.log(format!("second hash order gives different outcomes: {diff}"));
+            rep.violate("C05", "outcome_depends_on_hash_order", &[("shape", shape.into())], format!("the same replies in the same order give different caller outcomes under another hash-map iteration order: {diff}"));
+        }
+    }
+    rep
+}
+
+fn execute_once(plan: &Plan, entropy: u64, preset: Option<Vec<Vec<u8>>>) -> (RunReport, Vec<Vec<u8>>) {
     simkit::rt::block_on(entropy, async move {
         hooks::gates_install();
         let mut rep = RunReport::default();
@@ -70,13 +107,19 @@ pub fn execute(plan: &Plan, entropy: u64) -> RunReport {
             Ok(x) => x,
             Err(e) => {
                 rep.harness_error = Some(format!("build_client: {e}"));
-                return rep;
+                return (rep, vec![]);
             }
         };
         let mut w = World::new(plan, rep, driver, network);
+        if let Some(p) = preset {
+            for (v, b) in w.versions.iter_mut().zip(p.into_iter()) {
+                v.bytes = b;
+            }
+        }
+        let bytes = w.versions.iter().map(|v| v.bytes.clone()).collect();
         w.run().await;
         hooks::gates_uninstall();
-        w.rep
+        (w.rep, bytes)
     })
 }
 
@@ -263,9 +306,32 @@ impl<'a> World<'a> {
         self.queries.iter().rposition(|q| !q.done)
     }
 
+    /// What a caller received, described independently of serialisation order: a transaction set is
+    /// the same value whatever order its members are written in.
     fn classify(&self, r: &Record) -> String {
+        if let Ok(h) = RecordHeader::from_record(r) {
+            if h.kind == RecordKind::Transaction {
+                if let Ok(txs) = try_deserialize_record::<Vec<Transaction>>(r) {
+                    let mut ids: Vec<String> = txs
+                        .iter()
+                        .map(|t| format!("{}{}", u32::from_le_bytes([t.content[0], t.content[1], t.content[2], t.content[3]]), if t.verify() { "" } else { "!" }))
+                        .collect();
+                    ids.sort();
+                    ids.dedup();
+                    return format!("txs{{{}}}", ids.join(","));
+                }
+            }
+            if h.kind == RecordKind::Register {
+                if let Ok(reg) = try_deserialize_record::<SignedRegister>(r) {
+                    return format!("register with {} ops (verifies: {})", reg.ops().len(), reg.verify().is_ok());
+                }
+            }
+        }
         match self.versions.iter().position(|v| v.bytes == r.value) {
-            Some(v) => format!("v{v}"),
+            Some(v) => {
+                let canon = (0..=v).find(|a| self.versions[*a].bytes == self.versions[v].bytes).unwrap_or(v);
+                format!("v{canon}")
+            }
             None => "merged/other".into(),
         }
     }
